@@ -31,6 +31,16 @@ def gen_programs(rng, n, mode, collide, provide, only):
         yield g.program()
 
 
+def possible_kinds(prog):
+    """exception classes the program can raise at all: C01's static over-approximation + RuntimeError when some fill names the
+    same variable in data= and default= (reachable with colliding names)"""
+    ks = set(c01.possible_kinds(prog))
+    nodes = G.flatten(prog["page"]) + [t for _, cd in prog["lib"] for t in G.flatten(cd["tpl"])]
+    if any(t[0] == "fill" and t[2] and t[2] == t[3] for t in nodes):
+        ks.add("ERuntime")
+    return ks
+
+
 def describe(prog):
     return {"mode": prog["mode"], "ctx": prog["ctx"], "page": G.d_tpls(prog["page"]),
             "components": {n: {"template": G.d_tpls(cd["tpl"]), "data": cd["data"]} for n, cd in prog["lib"]}}
@@ -73,6 +83,13 @@ def check_batch(chk, progs, tag, key, ms_must_agree):
         nd = coq_eval(tag + "d", "prog", "check_mech_diverges", dterms, shard=4)
         chk.dist["%s:impl-RecursionError/M-out-of-fuel" % key] += len(diverge) - len(nd)
         if nd:
+            # several error sources: M renders children in place and stops at the first error in document order, the
+            # implementation defers the children's templates, so the unbounded recursion can come first there. Agreement =
+            # M does not terminate once the errors of child templates are deferred as well (Mech.mrender_d).
+            nd2 = [nd[j] for j in coq_eval(tag + "f", "prog", "check_mech_diverges_deferred", [dterms[i] for i in nd], shard=4)]
+            chk.dist["%s:impl-RecursionError/M-out-of-fuel-with-child-errors-deferred" % key] += len(nd) - len(nd2)
+            nd = nd2
+        if nd:
             uns = {nd[j] for j in coq_eval(tag + "e", "prog", "mech_unsup_p", [dterms[i] for i in nd], shard=4)}
             chk.dist["%s:outside-modelled-fragment" % key] += len(uns)
             nd = [i for i in nd if i not in uns]
@@ -92,7 +109,7 @@ def check_batch(chk, progs, tag, key, ms_must_agree):
         if ms_must_agree and uns:
             i = smallest(uns, meta, 1)[0]
             chk.disagree("a collision-free program leaves the fragment M models (MUnsup)", {"program": meta[i][0], "implementation": meta[i][1]})
-    maybe = [i for i in bad if meta[i][1][0] == "err" and meta[i][1][1] in c01.possible_kinds(meta[i][0]) and len(c01.possible_kinds(meta[i][0])) > 1]   # (the generator's own count of error sources, "nerr", undercounts: looped fills can duplicate names)
+    maybe = [i for i in bad if meta[i][1][0] == "err" and meta[i][1][1] in possible_kinds(meta[i][0]) and len(possible_kinds(meta[i][0])) > 1]   # (the generator's own count of error sources, "nerr", undercounts: looped fills can duplicate names)
     if maybe:
         still = coq_eval(tag + "l", "core_case", "check_mech_lenient", [terms[i] for i in maybe])
         ok = set(maybe) - {maybe[i] for i in still}
